@@ -12,6 +12,7 @@ What is not proved here (covered by the correspondence and the oracle only): the
 chunk sizes: `C26_full`), UTF-8 / UTF-16 character decoding round trips, and everything inside lxml.
 -/
 import AgVerif.Proof.Axml
+import AgVerif.Proof.AxmlPool
 namespace AgVerif.C26
 open AgVerif.Axml AgVerif.Spec.Axml AgVerif.Proof.Axml AgVerif.Gen.AxmlConsts
 
@@ -176,7 +177,43 @@ theorem pool_len16_wide (n : Nat) (rest : Bytes) (h : n ≤ 0x7FFFFFFF) :
   have h2 : (n / 65536 % 256 + 256 * (128 + n / 65536 / 256)) % 32768 * 65536 + (n % 256 + 256 * (n / 256 % 256)) = n := by omega
   simp [decodeLength, len16Wide, le, h1, h2]
 
+/-! ### string pool: characters (`utf16_roundtrip`, `utf8_roundtrip`) and whole pools (`pool_roundtrip`) -/
+
+/-- UTF-16 pool strings: the model's `bytes.decode('utf-16-le', 'replace')` applied to the UTF-16-LE bytes of any string of
+    Unicode scalar values (surrogate pairs above U+FFFF) returns the string. -/
+theorem utf16_roundtrip (s : Str) (h : ∀ c ∈ s, Scalar c) : dec16 (enc16 s) = s := dec16_enc16 s h
+
+/-- … and a lone surrogate code unit (high or low), anywhere between scalar values, comes back as one U+FFFD. -/
+theorem utf16_lone_surrogate (pre post : Str) (c : Nat) (hpre : ∀ x ∈ pre, Scalar x) (hpost : ∀ x ∈ post, Scalar x)
+    (hc : 0xD800 ≤ c ∧ c < 0xE000) : dec16 (enc16 (pre ++ c :: post)) = pre ++ 0xFFFD :: post :=
+  dec16_lone_surrogate pre post c hpre hpost hc
+
+/-- UTF-8 pool strings: the model's `bytes.decode('utf-8', 'replace')` applied to the standard UTF-8 bytes (1 to 4 byte
+    forms, what the independent writer emits) of any string of Unicode scalar values returns the string. -/
+theorem utf8_roundtrip (s : Str) (h : ∀ c ∈ s, Scalar c) : dec8 (enc8 s) = s := dec8_enc8 s h
+
+/-- … and the three-byte form of a surrogate (CESU-8 / modified UTF-8 supplementary characters) is rejected byte by byte:
+    three U+FFFD per surrogate. -/
+theorem utf8_surrogate (pre post : Str) (c : Nat) (hpre : ∀ x ∈ pre, Scalar x) (hpost : ∀ x ∈ post, Scalar x)
+    (hc : 0xD800 ≤ c ∧ c < 0xE000) : dec8 (enc8 (pre ++ c :: post)) = pre ++ 0xFFFD :: 0xFFFD :: 0xFFFD :: post :=
+  dec8_surrogate pre post c hpre hpost hc
+
+/-- Whole pools: `ARSCHeader` + `StringBlock.__init__` on an encoded ResStringPool chunk (any number of strings, UTF-8 or
+    UTF-16, narrow or forced-wide length prefixes, offset table, padding) placed anywhere in a buffer consume exactly the
+    chunk, and `getString(i)` returns string `i` for every `i`. -/
+theorem pool_roundtrip (B : Bytes) (p : Nat) (utf8 wide : Bool) (strings : List Str) (tail : Bytes)
+    (hs : ∀ s ∈ strings, StrOk utf8 s) (hsz : (encodePool utf8 wide strings).length < 2 ^ 32) (hB : p + 8 ≤ B.length) :
+    ∃ h c0 pool, readHdr ⟨B, encodePool utf8 wide strings ++ tail, p⟩ (some RES_STRING_POOL_TYPE) = .ok (h, c0) ∧
+      readPool h c0 = .ok (pool, ⟨B, tail, p + (encodePool utf8 wide strings).length⟩) ∧
+      ∀ i x, strings[i]? = some x → pool.get i = .ok x := by
+  obtain ⟨h, c0, h1, _, _, h2⟩ := parse_pool B p utf8 wide strings tail hsz hB
+  exact ⟨h, c0, _, h1, h2, fun i x hi => poolOf_get utf8 wide strings hs i x hi⟩
+
 /-! Non-vacuity -/
+example : StrOk true [0x68, 0xE9, 0x20AC, 0x1F600] ∧ StrOk false [0x68, 0xE9, 0x20AC, 0x1F600, 0xFFFD, 0] := by decide
+example : enc8 [0x68, 0xE9, 0x20AC, 0x1F600] = [0x68, 0xC3, 0xA9, 0xE2, 0x82, 0xAC, 0xF0, 0x9F, 0x98, 0x80] := by decide
+example : (poolOf true false [[0x61], [], [0x1F600, 0x62]]).get 2 = .ok [0x1F600, 0x62] := by rfl
+
 example : LegalName [0x5F, 0x61, 0x2D, 0x39, 0x2E] ∧ LegalName [0x69, 0x6E, 0x74, 0x65, 0x6E, 0x74] := by
   simp [LegalName, NameStart, NameChar]
 example : LegalValue [0x61, 0x20, 0x09, 0x3C, 0xE9, 0x1F600] := by
